@@ -3,6 +3,7 @@
 package codec
 
 import (
+	"fmt"
 	"go/ast"
 	"go/token"
 	"go/types"
@@ -27,6 +28,7 @@ type Builder struct {
 	Sites   int
 	Funcs   map[string]bool
 	hasEv   map[*ast.FuncDecl]int
+	recIdx  map[*ast.FuncDecl]int
 	decls   map[*types.Func]declRef
 }
 
@@ -180,7 +182,15 @@ func (b *Builder) exprEvents(c *ctx, e ast.Node, cur int) int {
 			}
 			nx := c.n.State()
 			if rec {
-				c.n.Edge(cur, nx, "REC:"+d.fd.Name.Name)
+				// recursive functions are numbered in order of discovery: the writer's and the reader's
+				// recursive helper carry different names and stand for the same nested structure
+				if b.recIdx == nil {
+					b.recIdx = map[*ast.FuncDecl]int{}
+				}
+				if _, seen := b.recIdx[d.fd]; !seen {
+					b.recIdx[d.fd] = len(b.recIdx) + 1
+				}
+				c.n.Edge(cur, nx, fmt.Sprintf("REC:#%d", b.recIdx[d.fd]))
 				cur = nx
 				continue
 			}
@@ -406,6 +416,26 @@ func (b *Builder) stmt(c *ctx, st ast.Stmt, cur int) int {
 		}
 		return exit
 	case *ast.RangeStmt:
+		// a range over a literal with k elements runs its body exactly k times
+		if lit, ok := ast.Unparen(s.X).(*ast.CompositeLit); ok && len(lit.Elts) > 0 && len(lit.Elts) <= 16 {
+			if _, isArr := lit.Type.(*ast.ArrayType); isArr {
+				exit := c.n.State()
+				for range lit.Elts {
+					next := c.n.State()
+					c.loopHead = append(c.loopHead, next)
+					c.loopExit = append(c.loopExit, exit)
+					end := b.block(c, s.Body.List, cur)
+					c.loopHead = c.loopHead[:len(c.loopHead)-1]
+					c.loopExit = c.loopExit[:len(c.loopExit)-1]
+					if end >= 0 {
+						c.n.Edge(end, next, "")
+					}
+					cur = next
+				}
+				c.n.Edge(cur, exit, "")
+				return exit
+			}
+		}
 		cur = b.exprEvents(c, s.X, cur)
 		head, exit := c.n.State(), c.n.State()
 		c.n.Edge(cur, head, "")
